@@ -3,14 +3,20 @@ NOTES = ("All checks are driven by /verif/check (python3, stdlib). Specification
          "/verif/harness (binary gv) and the goml CLI are rebuilt from /repo's working tree on every run with --cfg goml_verif. "
          "Exit 0 = held (KNOWN-FINDING lines for defects listed in known_findings.json), 1 = VIOLATION, 2 = tool error.")
 ENGINES = [
-    {"name": "tlc", "path": "/verif/spec", "serves_properties": ["C01", "C02", "C05", "C06", "C07", "C08", "C09", "C10", "C13", "C15"],
+    {"name": "tlc", "path": "/verif/spec", "serves_properties": ["C01", "C02", "C05", "C06", "C07", "C08", "C09", "C10", "C13", "C15", "C17"],
      "kind_free_text": "TLA+ specifications model-checked / simulated by TLC 1.8"},
-    {"name": "gv", "path": "/verif/harness", "serves_properties": ["C01", "C02", "C05", "C06", "C07", "C08", "C09", "C10", "C13", "C15"],
+    {"name": "gv", "path": "/verif/harness", "serves_properties": ["C01", "C02", "C05", "C06", "C07", "C08", "C09", "C10", "C13", "C15", "C17"],
      "kind_free_text": "Rust conformance harness with path dependencies on /repo/crates/*, and the goml CLI built from /repo"},
 ]
 PENDING = "check not built yet in this round (planned in DESIGN.md §4); not a claim that the technique cannot apply"
 NOT_APPLICABLE = {p: PENDING for p in ["C%02d" % i for i in range(1, 21)]}
 CHECKS = {
+    "C17": {
+        "level": "translation_validation",
+        "technique": "call-form templates per receiver kind evaluated by GomlSem.tla (dispatch on the receiver's type, dyn packages) and by GoSem.tla on the emitted Go; rejection templates for ambiguity / missing impl",
+        "text": "For int32, string, bool, a struct, an enum, two instances of a generic struct and a type of another package, one program prints every applicable call form (inherent x.m(a) and T::m(x,a); trait Tr::m(x,a), both bounded-generic forms, dyn via annotated let, dyn via argument coercion, literal coerced to dyn); all lines must equal GomlSem's result, with a second impl present so that a wrong dispatch is visible. An ambiguous method name under two bounds and a dyn coercion without impl must be rejected; disambiguated spellings accepted and dispatch to the named trait.",
+        "note": "Trusted as for C01. Programs hitting the known dyn-wrapper naming defect for generic instances (C02 finding) are not executable and only counted.",
+    },
     "C07": {
         "level": "model_checking",
         "technique": "Mono.tla (instantiation worklist with dedup, naming, termination) model-checked by TLC incl. liveness; generic templates x concrete type-argument pairs validated GomlSem (type passing) vs GoSem on the monomorphised Go, GoStatic for duplicate/missing instances",
